@@ -5,6 +5,7 @@ import (
 	"go/ast"
 	"go/token"
 	"go/types"
+	"sort"
 	"strings"
 
 	"npverif/internal/core"
@@ -190,19 +191,108 @@ func RepresentativeKey(p *core.Program, r *core.Report, rule string) {
 		return true
 	})
 	// key parts: locals defined by UniqueKeyFromLabelsSelector(X)
-	keyOf := map[types.Object]string{}
+	// (or by a helper of the package whose returned string is built from UniqueKeyFromLabelsSelector of its parameters:
+	// then the local covers the arguments those parameters receive)
+	keyOf := map[types.Object][]string{}
+	helperCovers := func(hd *core.FuncDecl) []int {
+		hinfo := hd.Pkg.TypesInfo
+		hsig := hd.Obj.Type().(*types.Signature)
+		part := map[types.Object]int{}
+		ast.Inspect(hd.Decl.Body, func(n ast.Node) bool {
+			as, ok := n.(*ast.AssignStmt)
+			if !ok || len(as.Rhs) != 1 {
+				return true
+			}
+			c, ok := ast.Unparen(as.Rhs[0]).(*ast.CallExpr)
+			if !ok || len(c.Args) != 1 {
+				return true
+			}
+			if fn := core.Callee(hinfo, c); fn != nil && core.RefName(fn) == "UniqueKeyFromLabelsSelector" {
+				if aid, isA := ast.Unparen(c.Args[0]).(*ast.Ident); isA {
+					for k := 0; k < hsig.Params().Len(); k++ {
+						if hinfo.ObjectOf(aid) == types.Object(hsig.Params().At(k)) {
+							if id, isId := as.Lhs[0].(*ast.Ident); isId {
+								part[hinfo.ObjectOf(id)] = k
+							}
+						}
+					}
+				}
+			}
+			return true
+		})
+		var common map[int]bool
+		ast.Inspect(hd.Decl.Body, func(n ast.Node) bool {
+			if _, isLit := n.(*ast.FuncLit); isLit {
+				return false
+			}
+			ret, ok := n.(*ast.ReturnStmt)
+			if !ok || len(ret.Results) == 0 {
+				return true
+			}
+			if v, isC := core.ConstString(hinfo, ret.Results[0]); isC && v == "" {
+				return true // the error exits
+			}
+			got := map[int]bool{}
+			ast.Inspect(ret.Results[0], func(m ast.Node) bool {
+				if id, isId := m.(*ast.Ident); isId {
+					o := hinfo.ObjectOf(id)
+					if k, has := part[o]; has {
+						got[k] = true
+					} else if d, _ := defOf(hd, id); d != nil {
+						ast.Inspect(d, func(mm ast.Node) bool {
+							if id2, is2 := mm.(*ast.Ident); is2 {
+								if k2, has2 := part[hinfo.ObjectOf(id2)]; has2 {
+									got[k2] = true
+								}
+							}
+							return true
+						})
+					}
+				}
+				return true
+			})
+			if common == nil {
+				common = got
+			} else {
+				for k := range common {
+					if !got[k] {
+						delete(common, k)
+					}
+				}
+			}
+			return true
+		})
+		var out []int
+		for k := range common {
+			out = append(out, k)
+		}
+		sort.Ints(out)
+		return out
+	}
 	ast.Inspect(fd.Decl.Body, func(n ast.Node) bool {
 		as, ok := n.(*ast.AssignStmt)
 		if !ok || len(as.Rhs) != 1 {
 			return true
 		}
 		c, ok := ast.Unparen(as.Rhs[0]).(*ast.CallExpr)
-		if !ok || len(c.Args) != 1 {
+		if !ok {
 			return true
 		}
-		if fn := core.Callee(info, c); fn != nil && core.RefName(fn) == "UniqueKeyFromLabelsSelector" {
-			if id, ok := as.Lhs[0].(*ast.Ident); ok {
-				keyOf[info.ObjectOf(id)] = core.ExprStr(c.Args[0])
+		id, isId := as.Lhs[0].(*ast.Ident)
+		if !isId {
+			return true
+		}
+		fn := core.Callee(info, c)
+		if fn == nil {
+			return true
+		}
+		if core.RefName(fn) == "UniqueKeyFromLabelsSelector" && len(c.Args) == 1 {
+			keyOf[info.ObjectOf(id)] = []string{core.ExprStr(c.Args[0])}
+		} else if hd := p.ByObj[fn]; hd != nil && hd.Pkg.PkgPath == core.PkgEval {
+			for _, k := range helperCovers(hd) {
+				if k < len(c.Args) {
+					keyOf[info.ObjectOf(id)] = append(keyOf[info.ObjectOf(id)], core.ExprStr(c.Args[k]))
+				}
 			}
 		}
 		return true
@@ -232,8 +322,10 @@ func RepresentativeKey(p *core.Program, r *core.Report, rule string) {
 					return true
 				}
 				o := info.ObjectOf(id)
-				if sel, ok := keyOf[o]; ok {
-					covered[sel] = true
+				if sels, ok := keyOf[o]; ok {
+					for _, sel := range sels {
+						covered[sel] = true
+					}
 					return true
 				}
 				if depth < 2 {
@@ -548,22 +640,60 @@ func SelectorsFullMatchTable(p *core.Program, r *core.Report, rule string) {
 // entry covered by the entire-cluster entry reaches PortSet.ContainedIn, which
 // consults the named ports of both sides.
 func ContainmentSeesNamedPorts(p *core.Program, r *core.Report, rule string) {
-	fd := p.Func(core.PkgConnlist, "", "connectionContainedInEntireClusterConn")
-	if fd == nil {
-		r.Lost(rule, "connlist.connectionContainedInEntireClusterConn")
-		return
-	}
-	info := fd.Pkg.TypesInfo
-	usesContained := false
-	ast.Inspect(fd.Decl.Body, func(n ast.Node) bool {
-		if c, ok := n.(*ast.CallExpr); ok {
-			if fn := core.Callee(info, c); fn != nil && core.RefName(fn) == "ContainedIn" && core.RecvTypeName(fn.Type().(*types.Signature)) == "ConnectionSet" {
-				usesContained = true
+	// anchored by the effect: the function of package connlist that decides whether a connection towards a
+	// representative peer is already covered - it obtains the peer's entire-cluster connection from the engine and
+	// asks ConnectionSet.ContainedIn with it as the operand (whatever the function is called, helper or inlined)
+	nSup := 0
+	for _, fd := range p.FuncsIn(core.PkgConnlist) {
+		info := fd.Pkg.TypesInfo
+		var general types.Object
+		ast.Inspect(fd.Decl.Body, func(n ast.Node) bool {
+			as, ok := n.(*ast.AssignStmt)
+			if !ok || len(as.Rhs) != 1 {
+				return true
 			}
+			if c, isC := ast.Unparen(as.Rhs[0]).(*ast.CallExpr); isC {
+				if fn := core.Callee(info, c); fn != nil && core.RefName(fn) == "GetPeerXgressEntireClusterConn" {
+					if id, isId := as.Lhs[0].(*ast.Ident); isId {
+						general = info.ObjectOf(id)
+					}
+				}
+			}
+			return true
+		})
+		if general == nil {
+			continue
 		}
-		return true
-	})
-	r.Check(usesContained, rule, fd.Key()+": suppression is decided by ConnectionSet.ContainedIn", p.Pos(fd.Decl.Pos()), "resolved callee", "the suppression test no longer uses ConnectionSet.ContainedIn")
+		usesContained, otherTest := false, ""
+		ast.Inspect(fd.Decl.Body, func(n ast.Node) bool {
+			c, ok := n.(*ast.CallExpr)
+			if !ok {
+				return true
+			}
+			fn := core.Callee(info, c)
+			if fn == nil || core.RecvTypeName(fn.Type().(*types.Signature)) != "ConnectionSet" {
+				return true
+			}
+			for _, a := range c.Args {
+				if id, isId := ast.Unparen(a).(*ast.Ident); isId && info.ObjectOf(id) == general {
+					if core.RefName(fn) == "ContainedIn" {
+						usesContained = true
+					} else {
+						otherTest = core.RefName(fn)
+					}
+				}
+			}
+			return true
+		})
+		if !usesContained && otherTest == "" {
+			continue // reads the entire-cluster connection for another purpose (recording it)
+		}
+		nSup++
+		r.Check(usesContained && otherTest == "", rule, fd.Key()+": suppression is decided by ConnectionSet.ContainedIn", p.Pos(fd.Decl.Pos()), "resolved callee", "the suppression test compares with the entire-cluster connection by "+otherTest+", not by ConnectionSet.ContainedIn")
+	}
+	if nSup == 0 {
+		r.Bad(rule, "connlist: suppression is decided by ConnectionSet.ContainedIn", "-", "no function of package connlist compares a connection with the peer's entire-cluster connection by ConnectionSet.ContainedIn")
+	}
 	sums := Effects(p, core.PkgCommon)
 	m := p.Func(core.PkgCommon, "PortSet", "ContainedIn")
 	if m == nil {
